@@ -103,6 +103,11 @@ pub fn corruptions(format: &str) -> Vec<Corruption> {
     out.push(Corruption { doc: Doc::new(format!("{format}:comment-utf8"), mk(b"c\nfirst\nse\xffcond\n")), line: lines_before + 3, col_first: 3, col_last: 3, what: "invalid UTF-8 byte inside the comment".into() });
     out.push(Corruption { doc: Doc::new(format!("{format}:symbol-kind"), mk(b"i0 a\nq0 name\n")), line: lines_before + 2, col_first: 1, col_last: 1, what: "unknown symbol kind".into() });
     if format == "aig" {
+        // line feeds inside the and-gate section are line ends like any other: errors behind them
+        out.push(Corruption { doc: Doc::new("aig:lf-delta-then-symbol", b"aig 5 4 0 0 1\n\x0a\x00i0 x\ni9 y\n".to_vec()), line: 4, col_first: 2, col_last: 2, what: "symbol index out of range after a gate whose first delta is the byte 0x0a".into() });
+        out.push(Corruption { doc: Doc::new("aig:lf-delta-then-symbol-same-line", b"aig 5 4 0 0 1\n\x0a\x00i9 x\n".to_vec()), line: 3, col_first: 3, col_last: 3, what: "symbol index out of range directly behind gate bytes 0x0a 0x00".into() });
+        out.push(Corruption { doc: Doc::new("aig:lf-second-delta", b"aig 12 11 0 0 1\n\x02\x0aq\n".to_vec()), line: 3, col_first: 1, col_last: 1, what: "garbage behind a gate whose second delta is the byte 0x0a".into() });
+        out.push(Corruption { doc: Doc::new("aig:lf-delta-then-bad-delta", b"aig 12 10 0 0 2\n\x0a\x01\x7f\x00".to_vec()), line: 3, col_first: 2, col_last: 2, what: "second gate's delta too large, after a gate with an 0x0a delta".into() });
         // binary section: delta larger than the reference code, over-long varint
         out.push(Corruption { doc: Doc::new("aig:delta-too-large", b"aig 3 2 0 1 1\n6\n\x08\x02".to_vec()), line: 3, col_first: 1, col_last: 1, what: "first delta larger than the gate's own code".into() });
         out.push(Corruption { doc: Doc::new("aig:delta2-too-large", b"aig 3 2 0 1 1\n6\n\x02\x06".to_vec()), line: 3, col_first: 2, col_last: 2, what: "second delta larger than the first input code".into() });
